@@ -35,7 +35,7 @@ from pyvc.sarray import SArr, Cell, zi, conc
 from pyvc.sdict import SDictArr, Key
 from pyvc import npspec, pyspec
 
-from contracts.c13 import stmt_sum_ext, stmt_monotone_cum, use, prefix_def, LemmaSumExt, LemmaMonotoneCum
+from contracts.c13 import stmt_sum_ext, stmt_monotone_cum, use, prefix_def, prefix_inst, LemmaSumExt, LemmaMonotoneCum, _LoopLemma, L2a_perm_sum
 
 R, I, B = z3.RealSort(), z3.IntSort(), z3.BoolSort()
 PN = z3.Function('pname', I, Key)
@@ -550,13 +550,13 @@ def quantile_stub(s):
     return stub
 
 
-def quantile_clause(vc, val, alpha, what):
+def quantile_clause(vc, val, alpha, what, label=None):
     """`val` is the value returned by a weighted_sample_quantile call made with this alpha on the stored column / weights"""
     recs = [r for r in vc.libcalls.get('wsq', []) if isinstance(val, SReal) and z3.eq(val.t, r['q'])]
     if not recs:
         return (what + ': a result of weighted_sample_quantile on the stored column and weights', z3.BoolVal(False))
     r = recs[0]
-    return (what + ': the weighted %s-quantile of the stored column under the stored weights (C13 clauses)' % alpha,
+    return (what + ': the weighted %s-quantile of the stored column under the stored weights (C13 clauses)' % (label or 'alpha'),
             z3.And(r['alpha'] == alpha, r['clauses']))
 
 
@@ -585,8 +585,8 @@ class SampleCIs(_Stats):
         if not (isinstance(v, tuple) and len(v) == 3):
             return out + [('value is a (mean, lower, upper) triple', z3.BoolVal(False))]
         return out + [('mean = weighted average of exactly the stored column under the stored weights', T(v[0]) == self._mean(s, j0)),
-                      quantile_clause(vc, v[1], z3.RealVal('0.025'), 'lower bound'),
-                      quantile_clause(vc, v[2], z3.RealVal('0.975'), 'upper bound')]
+                      quantile_clause(vc, v[1], z3.RealVal('0.025'), 'lower bound', '0.025'),
+                      quantile_clause(vc, v[2], z3.RealVal('0.975'), 'upper bound', '0.975')]
 
 
 class SampleQuantiles(_Stats):
@@ -672,6 +672,22 @@ class BolfiInit(Contract):
                 z3.And(z3.BoolVal(isinstance(ch, SArr) and ch.ndim == 3 and ch.cell is not s.chains.cell), _eq3(ch, C, s.N, d))),
                ('the caller\'s chains array is not modified', z3.And(z3.BoolVal(s.chains.cell.elt is s.cell_elt), _eq3(s.chains, C, s.N, d)))]
         return out
+
+
+class BolfireInit(BolfiInit):
+    """BOLFIRESample.__init__ builds its samples with the same slice / reshape / transpose (it keeps the caller's chains array
+    itself in meta and stores the warmed-up ARRAY under meta['warmup']; only the index map and the frame are claimed here)"""
+    target = 'elfi/methods/results.py::BOLFIRESample.__init__'
+
+    def env(self, vc):
+        e = BolfiInit.env(self, vc)
+        e['BOLFIRESample'] = 'BOLFIRESample'
+        return e
+
+    def ensures(self, s, result):
+        out = BolfiInit.ensures(self, s, result)
+        return [c for c in out if not c[0].startswith('meta:')] + \
+            [('meta: n_chains', T(s.self.meta.get('n_chains')) == s.C)]
 
 
 def _eq3(a, C, N, d):
@@ -991,6 +1007,160 @@ class GelmanRubin(Contract):
 class MonotoneCum(LemmaMonotoneCum):
     """prefix sums of non-negative terms are monotone"""
     prop = 'C16'
+
+
+# ---------------------------------------------------------------- invariance of the split R-hat (lemmas over the contract above)
+def stmt_affine_sum(n, x, a, b, S, S2):
+    """mean(a x + b) = a mean(x) + b, as sums"""
+    hyp = z3.And(n >= 0, prefix_def(S, n, x), prefix_def(S2, n, lambda i: a * x(i) + b))
+    return hyp, S2(n) == a * S(n) + b * z3.ToReal(n)
+
+
+def stmt_affine_ss(n, x, a, b, mu, Q, Q2):
+    """var(a x + b) = a^2 var(x), as sums of squared deviations (the mean of a x + b being a mu + b)"""
+    dev = lambda i: (x(i) - mu) * (x(i) - mu)
+    dev2 = lambda i: (a * x(i) + b - (a * mu + b)) * (a * x(i) + b - (a * mu + b))
+    hyp = z3.And(n >= 0, prefix_def(Q, n, dev), prefix_def(Q2, n, dev2))
+    return hyp, Q2(n) == a * a * Q(n)
+
+
+class LemmaAffineSum(_LoopLemma):
+    """mean(a x + b) = a mean(x) + b: the sum of a x(i) + b over [0, n) is a * (sum of x) + b n"""
+    target = '@verif/lemmas/c16_lemmas.py::lemma_affine_sum'
+    prop = 'C16'
+
+    def _mk(self, vc):
+        n = z3.Int('n')
+        a, b = z3.Reals('a b')
+        x, S, S2 = [z3.Function(nm, I, R) for nm in ('x', 'S', 'S2')]
+        hyp, goal = stmt_affine_sum(n, x, a, b, S, S2)
+        vc.fin_bounds.append(n)
+        s = ns(n=n, a=a, b=b, x=x, S=S, S2=S2, hyp=hyp, goal=goal, args=(SInt(n),))
+        vc._lemma_s = s
+        return s
+
+    def _instances(self, s, j):
+        return [z3.Implies(z3.And(0 <= j, j < s.n), z3.And(prefix_inst(s.S, s.x, j), prefix_inst(s.S2, lambda i: s.a * s.x(i) + s.b, j)))]
+
+    loops = {0: Loop(inv=lambda s, l: [z3.And(0 <= T(l.j), T(l.j) <= s.n), s.S2(T(l.j)) == s.a * s.S(T(l.j)) + s.b * z3.ToReal(T(l.j))])}
+
+
+class LemmaAffineSS(_LoopLemma):
+    """var(a x + b) = a^2 var(x): the sum of squared deviations of a x + b from a mu + b is a^2 * (that of x from mu)"""
+    target = '@verif/lemmas/c16_lemmas.py::lemma_affine_ss'
+    prop = 'C16'
+
+    def _mk(self, vc):
+        n = z3.Int('n')
+        a, b, mu = z3.Reals('a b mu')
+        x, Q, Q2 = [z3.Function(nm, I, R) for nm in ('x', 'Q', 'Q2')]
+        hyp, goal = stmt_affine_ss(n, x, a, b, mu, Q, Q2)
+        vc.fin_bounds.append(n)
+        s = ns(n=n, a=a, b=b, mu=mu, x=x, Q=Q, Q2=Q2, hyp=hyp, goal=goal, args=(SInt(n),))
+        vc._lemma_s = s
+        return s
+
+    def _instances(self, s, j):
+        dev = lambda i: (s.x(i) - s.mu) * (s.x(i) - s.mu)
+        dev2 = lambda i: (s.a * s.x(i) + s.b - (s.a * s.mu + s.b)) * (s.a * s.x(i) + s.b - (s.a * s.mu + s.b))
+        return [z3.Implies(z3.And(0 <= j, j < s.n), z3.And(prefix_inst(s.Q, dev, j), prefix_inst(s.Q2, dev2, j)))]
+
+    loops = {0: Loop(inv=lambda s, l: [z3.And(0 <= T(l.j), T(l.j) <= s.n), s.Q2(T(l.j)) == s.a * s.a * s.Q(T(l.j))])}
+
+
+def rhat2_of(n, m, SSm, SBm):
+    nr, mr = z3.ToReal(n), z3.ToReal(m)
+    Wv, Bv = SSm / mr, nr * SBm / (mr - 1)
+    return ((nr - 1) / nr * Wv + Bv / nr) / Wv
+
+
+class _RhatLemma(Contract):
+    prop = 'C16'
+    fin = 4
+
+    def _fns(self):
+        return [z3.Function(nm, I, R) for nm in ('MU', 'S2', 'SG', 'SG2', 'SB', 'SB2', 'SS', 'SS2')]
+
+
+class LemmaRhatAffine(_RhatLemma):
+    """split R-hat of a x + b (a != 0) = split R-hat of x, from the two moment lemmas"""
+    target = '@verif/lemmas/c16_lemmas.py::lemma_rhat_affine'
+
+    def setup(self, vc):
+        n, m = z3.Ints('n m')
+        a, b = z3.Reals('a b')
+        vc.fin_bounds.extend([n, m])
+        MU, S2, SG, SG2, SB, SB2, SS, SS2 = self._fns()
+        G = SG(m) / z3.ToReal(m)
+        s = ns(n=n, m=m, a=a, b=b, MU=MU, S2=S2, SG=SG, SG2=SG2, SB=SB, SB2=SB2, SS=SS, SS2=SS2, G=G)
+        # half chain r of a x + b has mean a MU(r) + b and variance a^2 S2(r)  (LemmaAffineSum / LemmaAffineSS per half chain)
+        s.L1 = stmt_affine_sum(m, MU, a, b, SG, SG2)
+        s.L2 = stmt_affine_ss(m, MU, a, b, G, SB, SB2)
+        s.L3 = stmt_affine_sum(m, S2, a * a, z3.RealVal(0), SS, SS2)
+        vc._s = s
+        return s, (), {}
+
+    def env(self, vc):
+        s = vc._s
+        return dict(use_affine_grand_mean=lambda: vc.assume(use(s.L1)), use_affine_between=lambda: vc.assume(use(s.L2)),
+                    use_affine_within=lambda: vc.assume(use(s.L3)))
+
+    def requires(self, s):
+        return [s.n >= 2, s.m >= 2, s.a != 0, s.L1[0], s.L2[0], s.L3[0], ('within-sequence variance is positive', s.SS(s.m) > 0)]
+
+    def ensures(self, s, result):
+        m = s.m
+        return [('grand mean of the transformed chains = a G + b (so SB2 is their between-sequence sum of squares)', s.SG2(m) / z3.ToReal(m) == s.a * s.G + s.b),
+                ('B and W scale by a^2', z3.And(s.SB2(m) == s.a * s.a * s.SB(m), s.SS2(m) == s.a * s.a * s.SS(m))),
+                ('R-hat(a x + b) = R-hat(x)', rhat2_of(s.n, m, s.SS2(m), s.SB2(m)) == rhat2_of(s.n, m, s.SS(m), s.SB(m)))]
+
+
+class LemmaRhatPermutation(_RhatLemma):
+    """split R-hat of the reordered chains = split R-hat of the chains (permutation invariance of finite sums, L2a)"""
+    target = '@verif/lemmas/c16_lemmas.py::lemma_rhat_permutation'
+
+    def setup(self, vc):
+        n, C = z3.Ints('n C')
+        vc.fin_bounds.extend([n, C])
+        m = 2 * C
+        MU, S2, SG, SG2, SB, SB2, SS, SS2 = self._fns()
+        pi, pinv = z3.Function('chain_perm', I, I), z3.Function('chain_perm_inv', I, I)
+        sg = lambda r: 2 * pi(r / 2) + r % 2               # half chain r of the reordered chains is half chain sg(r) of the original ones
+        sginv = lambda r: 2 * pinv(r / 2) + r % 2
+        G = SG(m) / z3.ToReal(m)
+        dev = lambda r: (MU(r) - G) * (MU(r) - G)
+        s = ns(n=n, C=C, m=m, pi=pi, pinv=pinv, SG=SG, SG2=SG2, SB=SB, SB2=SB2, SS=SS, SS2=SS2, G=G)
+        s.defs = [prefix_def(SG, m, MU), prefix_def(SG2, m, lambda j: MU(sg(j))), prefix_def(SB, m, dev), prefix_def(SB2, m, lambda j: dev(sg(j))),
+                  prefix_def(SS, m, S2), prefix_def(SS2, m, lambda j: S2(sg(j)))]
+        s.sigma_body = lambda i: z3.And(0 <= sg(i), sg(i) < m, sginv(sg(i)) == i, 0 <= sginv(i), sginv(i) < m, sg(sginv(i)) == i)
+        s.sigma = forall_range(0, m, s.sigma_body, 'i')
+        s.PI = Univ(0, C, lambda c: z3.And(0 <= pi(c), pi(c) < C, pinv(pi(c)) == c, 0 <= pinv(c), pinv(c) < C, pi(pinv(c)) == c), 'c')
+        s.L = [L2a_perm_sum(m, sg, sginv, MU, SG, SG2), L2a_perm_sum(m, sg, sginv, dev, SB, SB2), L2a_perm_sum(m, sg, sginv, S2, SS, SS2)]
+        vc._s = s
+        return s, (), {}
+
+    def env(self, vc):
+        s = vc._s
+
+        def first():
+            def steps(i0, rng):
+                s.PI.inst(vc, i0 / 2)           # pi / pinv at the chain of half chain i0
+            u = forall_intro(vc, 'the induced map on half chains r -> 2 pi(r div 2) + r mod 2 is a permutation of [0, 2C)', 0, s.m, s.sigma_body, steps)
+            if not z3.eq(u.q, s.sigma):
+                raise OutOfSubset('proof script: sigma fact has an unexpected form')
+            vc.assume(s.L[0])
+        return dict(use_perm_grand_mean=first, use_perm_between=lambda: vc.assume(s.L[1]), use_perm_within=lambda: vc.assume(s.L[2]))
+
+    def requires(self, s):
+        C, pi, pinv = s.C, s.pi, s.pinv
+        return [s.n >= 2, C >= 1, ('pi is a permutation of the chains', s.PI.q)] + \
+            s.defs + [('within-sequence variance is positive', s.SS(s.m) > 0)]
+
+    def ensures(self, s, result):
+        m = s.m
+        return [('grand mean unchanged (so SB2 is the between-sequence sum of squares of the reordered chains)', s.SG2(m) / z3.ToReal(m) == s.G),
+                ('B and W unchanged', z3.And(s.SB2(m) == s.SB(m), s.SS2(m) == s.SS(m))),
+                ('R-hat(reordered chains) = R-hat(chains)', rhat2_of(s.n, m, s.SS2(m), s.SB2(m)) == rhat2_of(s.n, m, s.SS(m), s.SB(m)))]
 
 
 # ================================================================ 5. sample_object_to_dict / numpy_to_python_type
@@ -1352,10 +1522,185 @@ class SampleObjectToDict(Contract):
               z3.BoolVal(s.hp.ndom is s.hp_fns[0] and s.hp.nval is s.hp_fns[1] and s.attrs.dom is s.attr_fns[0] and s.attrs.val is s.attr_fns[1]))]
 
 
+# ================================================================ CAS tier: the real gelman_rubin_statistic at small concrete shapes
+from pyvc.cas import CasContract, run_function as cas_run, decide_identity      # noqa: E402
+
+CAS_SHAPES_QUICK = [(1, 4), (1, 5), (2, 4), (2, 5)]
+CAS_SHAPES_THOROUGH = CAS_SHAPES_QUICK + [(3, 6), (2, 7)]
+
+
+def _cas_textbook2(arr):
+    """square of the textbook split R-hat, written over sympy terms without numpy reductions"""
+    import sympy as sp
+    C, N = arr.shape
+    n, m = N // 2, 2 * C
+    seqs = [[arr[c, h * n + t] for t in range(n)] for c in range(C) for h in range(2)]
+    mu = [sum(q) / sp.Integer(n) for q in seqs]
+    s2 = [sum((v - mu[r]) ** 2 for v in seqs[r]) / sp.Integer(n - 1) for r in range(m)]
+    g = sum(mu) / sp.Integer(m)
+    Bv = sp.Integer(n) / (m - 1) * sum((u - g) ** 2 for u in mu)
+    Wv = sum(s2) / sp.Integer(m)
+    return (sp.Rational(n - 1, n) * Wv + Bv / n) / Wv
+
+
+class RhatCas(CasContract):
+    """the REAL body run over sympy terms (numpy object arrays): R-hat^2 = textbook formula, invariance under x -> a x + b with
+    symbolic a != 0, b, and under every permutation of the chains - for ALL real chain values at the listed shapes"""
+    target = 'elfi/methods/mcmc.py::gelman_rubin_statistic'
+    prop = 'C16'
+    label = 'cas'
+    shapes = '(chains, length) in %r (thorough: + %r)' % (CAS_SHAPES_QUICK, CAS_SHAPES_THOROUGH[len(CAS_SHAPES_QUICK):])
+
+    def identities(self, tier, seed):
+        import itertools
+        import numpy as np
+        import sympy as sp
+        for (C, N) in (CAS_SHAPES_QUICK if tier == 'quick' else CAS_SHAPES_THOROUGH):
+            Xs = np.array([[sp.Symbol('x_%d_%d' % (c, t), real=True) for t in range(N)] for c in range(C)], dtype=object)
+            dom = {v: (-2.0, 2.0) for v in Xs.ravel()}
+            a, b = sp.Symbol('a', real=True, nonzero=True), sp.Symbol('b', real=True)
+            dom2 = dict(dom)
+            dom2[a], dom2[b] = (-3.0, -0.5), (-2.0, 2.0)
+
+            def run(arr, what):
+                try:
+                    r = cas_run(self.target, args=(arr,))[0]
+                    return r ** 2, None
+                except OutOfSubset:
+                    raise
+                except Exception as e:
+                    return None, dict(name=what, verdict='undecided', reason='%s: %s' % (type(e).__name__, e), case=dict(C=C, N=N))
+            r2, err = run(Xs.copy(), 'formula C=%d N=%d' % (C, N))
+            if err:
+                yield err
+                continue
+            yield dict(name='R-hat^2 = ((n-1)/n W + B/n)/W, C=%d N=%d' % (C, N), lhs=r2, rhs=_cas_textbook2(Xs), domain=dom, case=dict(C=C, N=N, kind='formula'))
+            ra, err = run(a * Xs + b, 'affine C=%d N=%d' % (C, N))
+            yield err or dict(name='R-hat(a x + b) = R-hat(x), C=%d N=%d' % (C, N), lhs=ra, rhs=r2, domain=dom2, case=dict(C=C, N=N, kind='affine'))
+            for perm in itertools.permutations(range(C)):
+                if list(perm) == list(range(C)):
+                    continue
+                rp, err = run(Xs[list(perm), :].copy(), 'perm C=%d N=%d' % (C, N))
+                yield err or dict(name='R-hat(chains %r) = R-hat(chains), C=%d N=%d' % (perm, C, N), lhs=rp, rhs=r2, domain=dom, case=dict(C=C, N=N, kind='perm', perm=list(perm)))
+
+
 CONTRACTS = [SampleInit('plain'), SampleInit('weighted'), SamplesArray(), NSamples(), Dim(), Discrepancies(True), Discrepancies(False),
              SampleMeans(True), SampleMeans(False), SampleCIs(True), SampleCIs(False), SampleQuantiles(True), SampleQuantiles(False), SumExt(),
-             BolfiInit(), GelmanRubin(), MonotoneCum(),
+             BolfiInit(), BolfireInit(), GelmanRubin(), RhatCas(), MonotoneCum(), LemmaAffineSum(), LemmaAffineSS(), LemmaRhatAffine(), LemmaRhatPermutation(),
              NumpyToPython(), SampleObjectToDict('given'), SampleObjectToDict('default')]
-TRUSTED_BASE = []
-ASSUMPTIONS = []
-NOT_PROVED = []
+
+TRUSTED_BASE = ['pyvc engine: proxies, loop cutting, numpy spec table (np.sum / np.mean / np.average = mathematical finite sum by prefix recursion; slices, '
+                'transpose; reshape row-major, incl. (A, M, d) -> (A*M, d) and (C, 2n) -> (2C, n) by div / mod index arithmetic)',
+                'numpy.var(a, ddof, axis) = sum of squared deviations from the mean / (n - ddof) (contracts/c16.py::np_var; sanity-tested, and cross-checked by the CAS run of the real body on numpy itself)',
+                'numpy.column_stack of L 1-d arrays of length n: out[i, j] = tup[j][i] (sanity-tested)',
+                'python: OrderedDict keeps insertion order, assignment to a present key keeps its position; dict(zip(names, rows)) maps each name to the row of its last occurrence; dict.copy() is shallow',
+                'weighted_sample_quantile through its C13 contract (contracts/c13.py::Quantile: element of the sample, weight <= q at least alpha, weight < q at most alpha)',
+                'type names of numpy objects: for a numpy type the class name contains "array" exactly for arrays, else "int" exactly for integer scalars, else "float" exactly for '
+                'floating scalars; .tolist() / int() / float() of those return plain python objects (sanity-tested on ndarray, int8..64, uint8..64, float16..64, bool_, str_)',
+                'L2a permutation invariance of a finite sum (Mathlib Equiv.sum_comp; lemmas/L2.lean, as in C13) - used only by LemmaRhatPermutation',
+                'sympy (CAS tier): expand / simplify / cancel reduce a zero rational function to 0; numpy object arrays apply +, -, *, / elementwise',
+                'universal generalisation and quantifier instantiation in the R-hat proof script (contracts/c16.py::forall_intro, Univ.inst, fcut): fresh constant, syntactic membership checks']
+ASSUMPTIONS = ['A-REAL: floats are reals; A-INT: integers are mathematical; no NaN / inf among samples, weights and chains',
+               'parameter columns are 1-D arrays (univariate parameters); multivariate outputs are exercised by no clause of this check',
+               'parameter names are pairwise distinct and all keys of outputs (otherwise Sample.__init__ raises KeyError / collapses entries); at least one parameter',
+               'Sample attributes (samples, outputs, weights, parameter_names) are not re-assigned between __init__ and the reporting properties (public attributes; frame not enforced by the class)',
+               'sample_means: weights sum to non-zero; intervals / quantiles: weights >= 0 with positive sum, n >= 1 (C13 Quantile.requires)',
+               'BolfiSample: 0 <= warmup <= N, at least one chain and one parameter, len(parameter_names) = chains.shape[2]',
+               'gelman_rubin_statistic: 2-D input with N >= 4 (two draws per half chain) and positive within-sequence variance (else 0/0)',
+               'numpy_to_python_type: distinct top-level keys hold distinct nested dict objects; sample_object_to_dict: no meta key equals the name of a copied attribute',
+               'A-LOG: logging / print calls have no effect']
+NOT_PROVED = ['the effective-sample-size ... diagnostics ... equal their textbook formulas: ESS equals its textbook formula - FFT autocovariance (numpy.fft.rfft / irfft) has no usable first-order '
+              'specification and the truncation loop is data dependent; not decided (bounded: invariances only)',
+              'the effective-sample-size ... diagnostics are invariant under affine rescaling of the chains and reordering of chains: for ESS bounded only (x -> -3x+7 and every chain order, C <= 4, N in 4..9)',
+              'Saving a sample to pickle, JSON or CSV and reading it back yields the same samples: byte fidelity of pickle / json float repr / csv text is library behaviour - bounded only '
+              '(round trips in a temp dir); proved: which keys sample_object_to_dict copies and which values numpy_to_python_type converts (one nesting level)',
+              'Sample.save itself (file handling, json.dumps, csv.writer) is not under contract; its JSON branch is covered through its two helpers and the bounded round trips',
+              'R-hat invariance for ALL shapes is proved at the level of the specification (LemmaRhatAffine / LemmaRhatPermutation over the definitional sums, to which GelmanRubin ties the code); '
+              'on the real body directly it is proved by CAS at the listed small shapes only']
+
+
+def sanity():
+    import collections
+    import json
+    import numpy as np
+    out = []
+    a = np.array([[1.0, 4.0, 2.0, 8.0], [0.5, 0.25, 3.0, 1.0]])
+    m = a.mean(axis=1)
+    out.append(('var(ddof=1, axis=1) = sum squared deviations / (n-1)', bool(np.allclose(np.var(a, ddof=1, axis=1), ((a - m[:, None]) ** 2).sum(axis=1) / 3))))
+    out.append(('var(ddof=1) 1-d', abs(np.var(m, ddof=1) - ((m - m.mean()) ** 2).sum() / 1) < 1e-15))
+    out.append(('column_stack: out[i, j] = tup[j][i]', np.column_stack((np.array([1, 2, 3]), np.array([4, 5, 6]))).tolist() == [[1, 4], [2, 5], [3, 6]]))
+    b = np.arange(24.0).reshape(2, 4, 3)
+    r = b[:, 1:, :].reshape((-1, 3))
+    out.append(('reshape (A, M, d) -> (A*M, d) row-major on a slice', all(r[c * 3 + t, j] == b[c, 1 + t, j] for c in range(2) for t in range(3) for j in range(3)) and r.shape == (6, 3)))
+    c = np.arange(10.0).reshape(2, 5)[:, :4].reshape((4, 2))
+    out.append(('reshape (C, 2n) -> (2C, n): row r = chain r div 2, half r mod 2', c.tolist() == [[0, 1], [2, 3], [5, 6], [7, 8]]))
+    od = collections.OrderedDict()
+    od['b'] = 1
+    od['a'] = 2
+    od['b'] = 3
+    out.append(('OrderedDict keeps insertion order; re-assignment keeps the position', list(od.items()) == [('b', 3), ('a', 2)]))
+    out.append(('dict(zip()) keeps the last occurrence; dict.copy is shallow', dict(zip(['x', 'y', 'x'], [1, 2, 3])) == {'x': 3, 'y': 2} and (lambda d: d.copy()['k'] is d['k'])({'k': [1]})))
+    ok = True
+    for t in (np.int8, np.int16, np.int32, np.int64, np.uint8, np.uint16, np.uint32, np.uint64):
+        v = t(3)
+        nm = str(type(v))
+        ok = ok and type(v).__module__ == np.__name__ and 'array' not in nm and 'int' in nm and type(int(v)) is int
+    for t in (np.float16, np.float32, np.float64):
+        v = t(0.5)
+        nm = str(type(v))
+        ok = ok and type(v).__module__ == np.__name__ and 'array' not in nm and 'int' not in nm and 'float' in nm and type(float(v)) is float
+    arr = np.array([[1, 2]])
+    nm = str(type(arr))
+    ok = ok and type(arr).__module__ == np.__name__ and 'array' in nm and type(arr.tolist()) is list and type(arr.tolist()[0][0]) is int
+    for v in (np.bool_(True), np.str_('s')):
+        nm = str(type(v))
+        ok = ok and not ('array' in nm or 'int' in nm or 'float' in nm)
+    for v in (1, 0.5, 's', None, [1], {'a': 1}):
+        ok = ok and type(v).__module__ != np.__name__
+    out.append(('numpy type-name tests classify arrays / integers / floats; conversions give plain python objects', bool(ok)))
+    out.append(('json round trip of python floats is exact', json.loads(json.dumps([0.1, 1 / 3, 2.5e-300])) == [0.1, 1 / 3, 2.5e-300]))
+    return out
+
+
+def bounded(tier, seed):
+    from bounded import c16 as b
+    return b.run(tier, seed)
+
+
+_FAMILY = [('Sample.', 'sample'), ('BolfiSample', 'bolfi'), ('gelman_rubin', 'diag'), ('lemma_rhat', None), ('lemma_', None),
+           ('numpy_to_python_type', 'save'), ('sample_object_to_dict', 'save')]
+_replay_cache = {}
+
+
+def replay_refuted(cname, rf):
+    """a refuted obligation: look for a failing native input of the same function family with the bounded harness
+    (CAS refutations carry the counter-point, finitised R-hat refutations the fixed finitised input)"""
+    from bounded import c16 as b
+    fam = next((v for k, v in _FAMILY if cname.startswith(k)), None)
+    if fam is None:
+        return dict(found=False, note='lemma obligation: no native input')
+    wit = rf.get('witness') or {}
+    if fam == 'diag':
+        cands = []
+        if wit.get('point') and wit.get('case'):
+            C, N = wit['case']['C'], wit['case']['N']
+            cands.append(dict(fn='diag', C=C, N=N, values=[[float(wit['point'].get('x_%d_%d' % (c, t), 0.0)) for t in range(N)] for c in range(C)]))
+        cands.append(dict(fn='diag', gen='formula', C=2, N=5))
+        b._preload()
+        for inp in cands:
+            try:
+                f = b.check_diag(inp)
+            except Exception as e:
+                f = '%s: %s' % (type(e).__name__, e)
+            if f:
+                return dict(found=True, input=inp, observed=f)
+    if fam not in _replay_cache:
+        res = b.run('thorough', 0, stop_first=True, which=(fam,))
+        fails = [f for r in res for f in r['failures']]
+        _replay_cache[fam] = dict(found=True, input=fails[0]['input'], observed=fails[0]['what']) if fails else dict(found=False, searched=[r['bound'] for r in res])
+    return _replay_cache[fam]
+
+
+def replay_input(inp):
+    from bounded import c16 as b
+    return b.replay_input(inp)
